@@ -302,6 +302,7 @@ RESET_TIMER:
 		if len(s.bufptr) > 0 {
 			n = copy(b, s.bufptr)
 			s.bufptr = s.bufptr[n:]
+			s.chainReadEvent()
 			s.mu.Unlock()
 			atomic.AddUint64(&DefaultSnmp.BytesReceived, uint64(n))
 			return n, nil
@@ -312,6 +313,7 @@ RESET_TIMER:
 			// from kcp.recv() to 'b', like 'DMA'.
 			if len(b) >= size {
 				s.kcp.Recv(b)
+				s.chainReadEvent()
 				s.mu.Unlock()
 				atomic.AddUint64(&DefaultSnmp.BytesReceived, uint64(size))
 				return size, nil
@@ -330,6 +332,7 @@ RESET_TIMER:
 			n = copy(b, s.recvbuf)   // then copy bytes to 'b' as many as possible
 			s.bufptr = s.recvbuf[n:] // pointer update
 
+			s.chainReadEvent()
 			s.mu.Unlock()
 			atomic.AddUint64(&DefaultSnmp.BytesReceived, uint64(n))
 			return n, nil
@@ -941,6 +944,16 @@ func (s *UDPSession) notifyReadEvent() {
 	select {
 	case s.chReadEvent <- struct{}{}:
 	default:
+	}
+}
+
+// chainReadEvent passes the wake-up on after a successful Read: chReadEvent holds a single
+// token, so when one datagram makes several messages readable only one blocked reader is
+// woken; if it leaves data behind it must re-notify, or the other readers sleep on readable
+// data until unrelated traffic arrives. Must be called with s.mu held.
+func (s *UDPSession) chainReadEvent() {
+	if len(s.bufptr) > 0 || s.kcp.PeekSize() > 0 {
+		s.notifyReadEvent()
 	}
 }
 
